@@ -26,6 +26,8 @@ func c10Menu() []c10Node {
 		l("zz", "../../sibling/canary", "bad"), l("l", "../../sibling/canary", "bad"),
 		l("l", "nope", "bad"), {TNode{Path: "ff", Kind: "fifo"}, "bad"}, {TNode{Path: "d/ff", Kind: "fifo"}, "bad"},
 		l("z/l", "../../..", "bad"), l("z/ok", "g", "ok"), l("l", "self", "bad"), l("l", ".", "result"),
+		l("l", "../<TMPBASE>/a", "bad"), l("d/l", "../../<TMPBASE>/a", "bad"), // back in by the name the directory has only while it is being prepared
+		{TNode{Path: ".terraformignore", Kind: "fifo"}, "bad"}, l(".terraformignore", "<AROUND>/sibling/canary", "bad"),
 		{TNode{Path: "emptydir", Kind: "dir"}, "ok"}, {TNode{Path: "x", Kind: "file", Body: "x", Mode: 0600}, "ok"},
 	}
 }
@@ -73,7 +75,16 @@ func RunC10(tier string) int {
 		}
 	}
 	for _, s := range sets {
+		ownRuleFile := false
+		for _, e := range s {
+			if e.n.Path == ".terraformignore" {
+				ownRuleFile = true // the set brings its own (special) rule file: nothing is written over it
+			}
+		}
 		for _, rf := range ruleFiles {
+			if ownRuleFile && rf != "" {
+				continue
+			}
 			for _, dep := range []bool{false, true} {
 				jobs = append(jobs, job{s, rf, dep})
 			}
